@@ -546,6 +546,26 @@ pub fn catalogue(f: &Frame, rng: &mut Rng) -> Vec<Mal> {
                     }
                     push(&mut out, "prop_dup", format!("{set}: id {id}"), &g);
                 }
+                // a multi-byte character split across the two strings of a user property: each half is invalid
+                // UTF-8 although their concatenation is valid
+                for (k, it) in items.iter().enumerate() {
+                    if it.len() == 3 {
+                        if let (Seg::Field { label: l1, content: c1, .. }, Seg::Field { label: l2, content: c2, .. }) = (&it[1], &it[2]) {
+                            for (head, tail) in [(&[0xE4u8, 0xBD][..], &[0xA0u8][..]), (&[0xC3][..], &[0xA9][..]), (&[0xF0, 0x9F][..], &[0x98, 0x80][..])] {
+                                let mut g = f.clone();
+                                let mut a = c1.clone();
+                                a.extend_from_slice(head);
+                                let mut b = tail.to_vec();
+                                b.extend_from_slice(c2);
+                                if let Seg::Props { items: it2, .. } = &mut g.body[i] {
+                                    it2[k][1] = Seg::Field { label: l1.clone(), text: true, content: a };
+                                    it2[k][2] = Seg::Field { label: l2.clone(), text: true, content: b };
+                                }
+                                push(&mut out, "bad_utf8", format!("{set}: user property {k}, character split across name and value"), &g);
+                            }
+                        }
+                    }
+                }
                 for (k, it) in items.iter().enumerate() {
                     for (j, s) in it.iter().enumerate() {
                         match s {
